@@ -52,7 +52,7 @@ pub fn build_stream(fmt: &'static str, vals: &[V], rng: &mut Rng, vary: bool) ->
                     let seps: &[&str] = if !vary {
                         &["\n"]
                     } else if tight_ok {
-                        &["", "\n", " ", "\n\n", "\r\n", "\t"]
+                        &["", "", "", "\n", " ", "\n\n", "\r\n", "\t"]
                     } else {
                         &["\n", " ", "\n\n", "\r\n", "\t"]
                     };
@@ -115,6 +115,41 @@ pub fn build_stream(fmt: &'static str, vals: &[V], rng: &mut Rng, vary: bool) ->
     Some(Stream { fmt, bytes: Rc::new(bytes), docs, values: vals.to_vec() })
 }
 
+/// XtData!Refused: documents the statement of C08 says a TOML target refuses (None: the statement
+/// does not say, e.g. binary or non-string keys).
+pub fn model_refuses(v: &V, to: &str) -> Option<bool> {
+    if to != "toml" {
+        return None;
+    }
+    if !matches!(v, V::Map(_)) {
+        return Some(true);
+    }
+    // anything in key position other than a string, and binary / 32-bit floats, are outside
+    // what the statement speaks about
+    fn outside(v: &V) -> bool {
+        match v {
+            V::Bin(_) | V::F32(_) => true,
+            V::Seq(xs) => xs.iter().any(outside),
+            V::Map(es) => es.iter().any(|(k, x)| !matches!(k, V::Str(_)) || outside(x)),
+            _ => false,
+        }
+    }
+    if outside(v) {
+        return None;
+    }
+    // values only (keys are strings here)
+    fn bad_value(v: &V) -> bool {
+        match v {
+            V::Null => true,
+            V::Int(i) => *i > i128::from(i64::MAX) || *i < i128::from(i64::MIN),
+            V::Seq(xs) => xs.iter().any(bad_value),
+            V::Map(es) => es.iter().any(|(_, x)| bad_value(x)),
+            _ => false,
+        }
+    }
+    Some(bad_value(v))
+}
+
 /// The translation of one document taken alone (the property's own oracle for C03).
 pub fn solo(doc: &[u8], from: &str, to: &str) -> Result<Vec<u8>, String> {
     let mut out = vec![];
@@ -141,6 +176,8 @@ pub struct CallSpec {
     pub mode: Mode,
     pub rfault: Option<usize>,
     pub docs: Option<Vec<Doc>>,
+    /// the model values of the documents, when the harness generated them
+    pub values: Option<Vec<V>>,
     pub over_report: Option<usize>,
 }
 
@@ -151,6 +188,8 @@ pub struct CaseSpec {
     pub accept: Accept,
     /// compare verdict/output with other runs of the same (bytes, from, to)
     pub keyed: bool,
+    /// when set, runs are compared across supplies of this text rather than of the same bytes (C07)
+    pub key_text: Option<Rc<Vec<u8>>>,
     pub label: String,
 }
 
@@ -222,7 +261,13 @@ impl<W: Write> Recorder<W> {
                 (Some(docs), Some(tf)) => {
                     let mut bad_at = 0;
                     for (i, d) in docs.iter().enumerate() {
-                        let fr = self.solo_cached(&c.bytes, d, i, tf, case.to);
+                        let mut fr = self.solo_cached(&c.bytes, d, i, tf, case.to);
+                        // The model (XtData!Refused), not xt, says which documents a TOML target must refuse.
+                        if let Some(vals) = &c.values {
+                            if model_refuses(&vals[i], case.to) == Some(true) {
+                                fr = Err("refused by the data model".into());
+                            }
+                        }
                         match fr {
                             Ok(f) if bad_at == 0 => {
                                 if case.to == "toml" {
@@ -344,7 +389,10 @@ impl<W: Write> Recorder<W> {
             }
             // C02 key: only single-call, fault-free cases are comparable across supply modes
             let key = if case.keyed && case.calls.len() == 1 && case.wfault.is_none() && c.rfault.is_none() && c.over_report.is_none() {
-                format!("{:016x}:{}|{}|{}", fnv(&c.bytes), c.bytes.len(), c.from, case.to)
+                match &case.key_text {
+                    Some(t) => format!("text{:016x}:{}|{}|{}", fnv(t), t.len(), c.from, case.to),
+                    None => format!("{:016x}:{}|{}|{}", fnv(&c.bytes), c.bytes.len(), c.from, case.to),
+                }
             } else {
                 String::new()
             };
